@@ -1,4 +1,4 @@
-HOOK_COMMITS = ['21cac9c', '70e05e0', 'cad1a19', 'fb5d827', 'd8140d7']   # filled by hand after each hook commit in /repo (git log --grep verifhook)
+HOOK_COMMITS = ['21cac9c', '70e05e0', 'cad1a19', 'fb5d827', 'd8140d7', '0dbcd0f']   # filled by hand after each hook commit in /repo (git log --grep verifhook)
 
 NOT_APPLICABLE = {}
 
@@ -172,7 +172,12 @@ META = {
          'past / future / zero context delays and for/until agreement), every publisher- and subscriber-decorator stack of depth <=3 over {transform, metrics, delay} is checked for '
          'transparency (one inner call, order, every transform once, errors and Close pass through, settling the outer message settles the inner one), and Prometheus router metrics '
          'applied once and twice are compared, per label, with the harness\' own counts of handler invocations, publish calls and settled messages over outcome sequences incl. '
-         'panics, publish failures and a message settled after Router.Close',
+         'panics, publish failures and a message settled after Router.Close. The message-transform subscriber decorator is also modelled at the grain of its goroutines '
+         '(SubDecorator.tla: Subscribe / forwarding goroutine / Close against an inner subscriber, consumers that stop reading and cancelled contexts; TLC checks that a message is '
+         'given up only after the inner Close or on a cancelled subscription, order, WaitGroup discipline, Close completeness and, under fairness, that Close returns and a '
+         'cancelled subscription gets its channel closed; two legacy designs and two seeded designs are rejected) and randomly scripted concurrent runs of the real decorator are '
+         'validated as INTERNAL traces (hook events + harness events) against that model; a context delay must be stamped exactly as made (also when published a second later) and '
+         'messages handed out while the inner Close is in progress still pass through',
     design_ref='DESIGN.md 6/C20',
     note='Counter equality is judged on a private prometheus.Registry gathered at quiescence. delayed_until has one-second resolution.',
     technique='TLA+ stamping function checked exhaustively by TLC, used as oracle; trace validation of decorator stacks and counter/event equality'),
